@@ -54,6 +54,9 @@ func genCfg(r *vh.Rng, h int, thorough bool) envCfg {
 	return c
 }
 
+// percent of inserted points (and update items) that carry zero-length Data
+var noDataPct = 1
+
 type gen struct {
 	r   *vh.Rng
 	cfg envCfg
@@ -331,7 +334,7 @@ func (g *gen) genOnce(sp *spec) op {
 				u = vh.Pick(r, g.cfg.Pool)
 			}
 			it := item{Id: u, Doc: g.insertDoc(true)}
-			if r.Chance(1) {
+			if r.Chance(noDataPct) {
 				it = item{Id: u, NoData: true}
 			}
 			items = append(items, it)
@@ -375,7 +378,7 @@ func (g *gen) genOnce(sp *spec) op {
 			if known && cur != nil && r.Chance(14) {
 				padTo(cur, it.Doc, g.cfg.Max+r.Intn(3)-1) // max-1, max, max+1
 			}
-			if r.Chance(1) {
+			if r.Chance((noDataPct + 1) / 2) {
 				it = item{Id: u, NoData: true}
 			}
 			if known && cur != nil && !it.NoData {
